@@ -291,7 +291,7 @@ pub fn check_case(ctx: &Ctx, case: &FailCase, rep: &mut CaseReport) -> CaseResul
 
 pub fn enumerate(tier: Tier) -> Vec<FailCase> {
     let mut v = vec![];
-    let maxn = tier.pick(4, 6);
+    let maxn = tier.pick(5, 6);
     let causes: Vec<Cause> = if tier == Tier::Thorough { vec![Cause::Missing, Cause::Fork, Cause::Pipe] } else { vec![Cause::Missing, Cause::Fork] };
     for n in 2..=maxn {
         for cause in &causes {
@@ -334,7 +334,7 @@ fn replay(ctx: &Ctx, _engine: &str, case: &Value) -> CaseResult {
 pub static C14: PropDef = PropDef {
     id: "C14",
     level: "fault_enumeration",
-    rule: "full enumeration of (pipeline length n = 2..4 (thorough 2..6), failing position k = 0..n-1, cause in {program that does not exist, fork() failing with EAGAIN at the k-th spawn; thorough also the j-th pipe() failing with EMFILE for every j}, pipeline stdin in {inherit, pipe, data, file}, terminator in {popen, join, capture, communicate, stream_stdin, stream_stdout} where the pair is expressible, detached on/off). Earlier stages are helper filters that read stdin to end-of-file. Oracle: the terminator returns Err with the failing step's errno; no fork after the failing step and no started-marker beyond it; the call returns (a non-returning call is judged by the wait-for-graph oracle: harness thread in wait4(P), P blocked on a pipe whose other end only the harness holds); afterwards waitpid(-1) says ECHILD (detached: the orphans terminate by themselves because their pipes were closed) and the descriptor table equals the one before. Non-trivial = k >= 1 (something had already been started) or a pipe fault; distinct = distinct enumerated cases.",
+    rule: "full enumeration of (pipeline length n = 2..5 (thorough 2..6), failing position k = 0..n-1, cause in {program that does not exist, fork() failing with EAGAIN at the k-th spawn; thorough also the j-th pipe() failing with EMFILE for every j}, pipeline stdin in {inherit, pipe, data, file}, terminator in {popen, join, capture, communicate, stream_stdin, stream_stdout} where the pair is expressible, detached on/off). Earlier stages are helper filters that read stdin to end-of-file. Oracle: the terminator returns Err with the failing step's errno; no fork after the failing step and no started-marker beyond it; the call returns (a non-returning call is judged by the wait-for-graph oracle: harness thread in wait4(P), P blocked on a pipe whose other end only the harness holds); afterwards waitpid(-1) says ECHILD (detached: the orphans terminate by themselves because their pipes were closed) and the descriptor table equals the one before. Non-trivial = k >= 1 (something had already been started) or a pipe fault; distinct = distinct enumerated cases.",
     assumptions: &["/proc/<pid>/syscall and /proc/<pid>/fd are readable (root)", "helper stages exit once their stdin reaches end-of-file"],
     engines: "real",
     workers: |_| 16,
